@@ -11,81 +11,128 @@
 (* executions are validated by KvTrace and LsmTrace.  The invariants of Lsm hold here too (checked).    *)
 EXTENDS Lsm, Integers, Json, IOUtils
 
-CONSTANTS MaxOps, OutDir
-VARIABLES ops, tags
-gvars == <<vars, ops, tags>>
+CONSTANTS MaxOps, OutDir,
+          WithBig      \* TRUE: some puts carry a value larger than max_file_size (1 MiB), so compaction outputs are
+                       \* closed after every such entry and ONE USER KEY CAN BE SPLIT OVER TWO FILES of a level
+VARIABLES ops, tags,
+          big          \* sequence numbers of the entries with a big value
+gvars == <<vars, ops, tags, big>>
 
 NoKey == -1
 Lo(b) == IF b = NoKey THEN -1 ELSE b            \* -1 = before every key
 Hi(e) == IF e = NoKey THEN NKeys ELSE e         \* NKeys = after every key
+\* sizes in units of 100 KB: a big value is 1.15 MB, everything else is negligible; max_file_size is 1 MiB
+IsBig(e) == e.s \in big
+FileBig(f) == \E e \in f.e : IsBig(e)
 
-\* ldb_version_get_overlapping_inputs: at level 0 the range grows to cover every picked file and the search restarts
-RECURSIVE Ov0(_, _, _, _)
-Ov0(lo, hi, growLo, growHi) ==
-  LET S == {f \in lv[0] : ~(Largest(f).k < lo \/ Smallest(f).k > hi)} IN
+\* ldb_version_get_overlapping_inputs on the level function L: at level 0 the range grows to cover every picked file
+RECURSIVE Ov0(_, _, _, _, _)
+Ov0(L, lo, hi, growLo, growHi) ==
+  LET S == {f \in L[0] : ~(Largest(f).k < lo \/ Smallest(f).k > hi)} IN
   IF S = {} THEN S
   ELSE LET lo2 == IF growLo THEN MinOf({lo} \cup {Smallest(f).k : f \in S}) ELSE lo
            hi2 == IF growHi THEN MaxOf({hi} \cup {Largest(f).k : f \in S}) ELSE hi
-       IN IF lo2 = lo /\ hi2 = hi THEN S ELSE Ov0(lo2, hi2, growLo, growHi)
-Overlapping(level, lo, hi, boundedLo, boundedHi) ==
-  IF level = 0 THEN Ov0(lo, hi, boundedLo, boundedHi)
-  ELSE {f \in lv[level] : ~(Largest(f).k < lo \/ Smallest(f).k > hi)}
+       IN IF lo2 = lo /\ hi2 = hi THEN S ELSE Ov0(L, lo2, hi2, growLo, growHi)
+Overlapping(L, level, lo, hi, boundedLo, boundedHi) ==
+  IF level = 0 THEN Ov0(L, lo, hi, boundedLo, boundedHi)
+  ELSE {f \in L[level] : ~(Largest(f).k < lo \/ Smallest(f).k > hi)}
 RangeLo(S) == MinOf({Smallest(f).k : f \in S})
 RangeHi(S) == MaxOf({Largest(f).k : f \in S})
+\* files of a level > 0 in key order
+SortFiles(S) == [i \in 1..Cardinality(S) |-> CHOOSE f \in S : Cardinality({g \in S : IKLess(Smallest(g), Smallest(f))}) = i - 1]
+\* ldb_versions_compact_range, level > 0: "avoid compacting too much in one shot" - the inputs are cut after the first
+\* file that brings the total to max_file_size, i.e. after the first file holding a big value
+RECURSIVE CutAtBig(_, _)
+CutAtBig(q, i) == IF i > Len(q) THEN {} ELSE IF FileBig(q[i]) THEN {q[i]} ELSE {q[i]} \cup CutAtBig(q, i + 1)
+Truncated(level, S) == IF level = 0 \/ S = {} THEN S ELSE CutAtBig(SortFiles(S), 1)
 
-\* ldb_versions_setup_other_inputs
-Setup(level, start0) ==
-  LET in0 == AddBoundary(lv[level], start0)
-      in1 == AddBoundary(lv[level + 1], Overlapping(level + 1, RangeLo(in0), RangeHi(in0), TRUE, TRUE))
+\* ldb_versions_setup_other_inputs on L
+Setup(L, level, start0) ==
+  LET in0 == AddBoundary(L[level], start0)
+      in1 == AddBoundary(L[level + 1], Overlapping(L, level + 1, RangeLo(in0), RangeHi(in0), TRUE, TRUE))
       allS == in0 \cup in1
-      exp0 == AddBoundary(lv[level], Overlapping(level, RangeLo(allS), RangeHi(allS), TRUE, TRUE))
-      exp1 == AddBoundary(lv[level + 1], Overlapping(level + 1, RangeLo(exp0), RangeHi(exp0), TRUE, TRUE))
+      exp0 == AddBoundary(L[level], Overlapping(L, level, RangeLo(allS), RangeHi(allS), TRUE, TRUE))
+      exp1 == AddBoundary(L[level + 1], Overlapping(L, level + 1, RangeLo(exp0), RangeHi(exp0), TRUE, TRUE))
       grow == in1 # {} /\ Cardinality(exp0) > Cardinality(in0) /\ Cardinality(exp1) = Cardinality(in1)
   IN [in0 |-> IF grow THEN exp0 ELSE in0, in1 |-> IF grow THEN exp1 ELSE in1, grew |-> grow,
-      bnd |-> (in0 # start0) \/ (in1 # Overlapping(level + 1, RangeLo(in0), RangeHi(in0), TRUE, TRUE))]
+      bnd0 |-> in0 # start0,
+      bnd1 |-> in1 # Overlapping(L, level + 1, RangeLo(in0), RangeHi(in0), TRUE, TRUE),
+      bndx |-> grow /\ exp0 # Overlapping(L, level, RangeLo(allS), RangeHi(allS), TRUE, TRUE)]
+\* drop rules with the deeper levels taken from L
+BaseFor(L, level, k) == \A j \in (level + 2)..(NL - 1) : \A f \in L[j] : ~InURange(f, k)
+SurvL(L, level, ents, ss) ==
+  LET newer(e) == {x \in ents : x.k = e.k /\ x.s > e.s}
+      prev(e) == CHOOSE x \in newer(e) : \A y \in newer(e) : x.s <= y.s
+      dropA(e) == newer(e) # {} /\ prev(e).s <= ss
+      dropB(e) == e.d /\ e.s <= ss /\ BaseFor(L, level, e.k)
+  IN {e \in ents : ~dropA(e) /\ ~dropB(e)}
+\* output files: the builder is closed as soon as its size reaches max_file_size, i.e. right after every big entry
+SortEnts(S) == [i \in 1..Cardinality(S) |-> CHOOSE e \in S : Cardinality({x \in S : IKLess(x, e)}) = i - 1]
+RECURSIVE Split(_, _, _, _)
+Split(q, i, cur, n) ==     \* -> set of files numbered from n
+  IF i > Len(q) THEN (IF cur = {} THEN {} ELSE {[n |-> n, e |-> cur]})
+  ELSE IF IsBig(q[i]) THEN {[n |-> n, e |-> cur \cup {q[i]}]} \cup Split(q, i + 1, {}, n + 1)
+       ELSE Split(q, i + 1, cur \cup {q[i]}, n)
+\* ldb_test_compact_range: compaction rounds until nothing at the level overlaps what is left of the range
+RECURSIVE Rounds(_, _, _, _, _, _, _, _)
+Rounds(L, nf, level, lo, hi, bLo, bHi, tg) ==
+  LET start0 == Truncated(level, Overlapping(L, level, lo, hi, bLo, bHi)) IN
+  IF start0 = {} THEN [L |-> L, nf |-> nf, tags |-> tg]
+  ELSE LET su == Setup(L, level, start0)
+           ents == EntsOf(su.in0 \cup su.in1)
+           surv == SurvL(L, level, ents, MinSnap)
+           outs == Split(SortEnts(surv), 1, {}, nf)
+           L2 == [L EXCEPT ![level] = @ \ su.in0, ![level + 1] = (@ \ su.in1) \cup outs]
+           direct == {f \in L[level] : ~(Largest(f).k < lo \/ Smallest(f).k > hi)}
+           lastIn == CHOOSE f \in su.in0 : \A g \in su.in0 : IKLeq(Largest(g), Largest(f))
+           tg2 == tg \cup (IF level = 0 /\ start0 # direct THEN {"close0"} ELSE {})
+                     \cup (IF level = 0 /\ bLo /\ RangeLo(start0) < lo THEN {"close0down"} ELSE {})
+                     \cup (IF su.grew THEN {"expand"} ELSE {})
+                     \cup (IF su.bnd0 THEN {"boundary0"} ELSE {}) \cup (IF su.bnd1 THEN {"boundary1"} ELSE {})
+                     \cup (IF su.bndx THEN {"boundaryx"} ELSE {})
+                     \cup (IF \E x \in ents \ surv : x.d THEN {"tombdrop"} ELSE {})
+                     \cup (IF \E x \in surv : x.d THEN {"tombkeep"} ELSE {})
+                     \cup (IF snaps # {} /\ \E x, y \in surv : x.k = y.k /\ x # y THEN {"snapkeep"} ELSE {})
+                     \cup (IF \E f, g \in outs : f # g /\ Largest(f).k = Smallest(g).k THEN {"keysplit"} ELSE {})
+                     \cup (IF Cardinality(outs) > 1 THEN {"multiout"} ELSE {})
+                     \cup (IF start0 # Overlapping(L, level, lo, hi, bLo, bHi) THEN {"chunked"} ELSE {})
+                     \cup (IF su.in1 # {} THEN {"merge"} ELSE {"push"})
+       IN \* the next round starts at the largest key of the last input file (manual.begin = tmp_storage)
+          Rounds(L2, nf + Cardinality(outs) + 1, level, Largest(lastIn).k, hi, TRUE, bHi, tg2)
 
-GInit == Init /\ ops = <<>> /\ tags = {}
+GInit == Init /\ ops = <<>> /\ tags = {} /\ big = {}
 Rec(o) == ops' = Append(ops, o)
 \* simulation picks uniformly among successor states: a weight field multiplies the successors of cheap operations
 \* so that ranged compactions (many parameter choices) do not crowd them out
 RecW(o, n) == \E w \in 1..n : ops' = Append(ops, [o EXCEPT !.w = w])
 CanOp == Len(ops) < MaxOps
 
-GPut(k) == CanOp /\ Write(k, FALSE, seq + 1) /\ RecW([op |-> "put", a |-> k, b |-> 0, c |-> 0, w |-> 0], 8) /\ UNCHANGED tags
-GDel(k) == CanOp /\ Write(k, TRUE, 0) /\ RecW([op |-> "del", a |-> k, b |-> 0, c |-> 0, w |-> 0], 3) /\ UNCHANGED tags
+GPut(k) == CanOp /\ Write(k, FALSE, seq + 1) /\ RecW([op |-> "put", a |-> k, b |-> 0, c |-> 0, w |-> 0], 8) /\ UNCHANGED <<tags, big>>
+GPutBig(k) == /\ WithBig /\ CanOp /\ Cardinality(big) < 6 /\ Write(k, FALSE, seq + 1) /\ big' = big \cup {seq + 1}
+              /\ RecW([op |-> "put", a |-> k, b |-> 1, c |-> 0, w |-> 0], 10) /\ UNCHANGED tags
+GDel(k) == CanOp /\ Write(k, TRUE, 0) /\ RecW([op |-> "del", a |-> k, b |-> 0, c |-> 0, w |-> 0], 3) /\ UNCHANGED <<tags, big>>
 \* forced flush: the memtable becomes a table at exactly the level the code picks
 GFlush == /\ CanOp /\ mem # {} /\ ~hasImm
           /\ LET f == [n |-> nextf, e |-> mem]  lev == PickLevel(f) IN
              /\ lv' = [lv EXCEPT ![lev] = @ \cup {f}] /\ disk' = disk \cup {f.n}
              /\ tags' = tags \cup (IF lev = 1 THEN {"flush1"} ELSE IF lev = 2 THEN {"flush2"} ELSE {"flush0"})
           /\ mem' = {} /\ nextf' = nextf + 1 /\ RecW([op |-> "flush", a |-> 0, b |-> 0, c |-> 0, w |-> 0], 8)
-          /\ UNCHANGED <<seq, imm, hasImm, snaps, hist, pins>>
+          /\ UNCHANGED <<seq, imm, hasImm, snaps, hist, pins, big>>
 \* close + open: the log is replayed into a level-0 table
 GReopen == /\ CanOp /\ mem # {} /\ snaps = {}
            /\ lv' = [lv EXCEPT ![0] = @ \cup {[n |-> nextf, e |-> mem]}] /\ disk' = disk \cup {nextf}
            /\ mem' = {} /\ nextf' = nextf + 1 /\ RecW([op |-> "reopen", a |-> 0, b |-> 0, c |-> 0, w |-> 0], 14)
            /\ tags' = tags \cup (IF Cardinality(lv[0]) >= 2 THEN {"l0x3"} ELSE {})
-           /\ UNCHANGED <<seq, imm, hasImm, snaps, hist, pins>>
-\* ldb_test_compact_range(level, b, e): one compaction of everything the range selects
+           /\ UNCHANGED <<seq, imm, hasImm, snaps, hist, pins, big>>
+\* ldb_test_compact_range(level, b, e)
 GCompact(level, b, e) ==
   /\ CanOp /\ level + 1 < NL /\ (b = NoKey \/ e = NoKey \/ b <= e)
-  /\ LET start0 == Overlapping(level, Lo(b), Hi(e), b # NoKey, e # NoKey) IN
-     /\ start0 # {}
-     /\ LET su == Setup(level, start0)
-            ents == EntsOf(su.in0 \cup su.in1)
-            surv == Survivors(level, ents, MinSnap)
-            direct == {f \in lv[level] : ~(Largest(f).k < Lo(b) \/ Smallest(f).k > Hi(e))}
-            outs == IF surv = {} THEN {} ELSE {[n |-> nextf, e |-> surv]}
-        IN /\ InstallCompaction(level, su.in0, su.in1, outs)
-           /\ tags' = tags \cup (IF level = 0 /\ start0 # direct THEN {"close0"} ELSE {})
-                           \cup (IF level = 0 /\ b # NoKey /\ RangeLo(start0) < b THEN {"close0down"} ELSE {})
-                           \cup (IF su.grew THEN {"expand"} ELSE {})
-                           \cup (IF su.bnd THEN {"boundary"} ELSE {})
-                           \cup (IF \E x \in ents \ surv : x.d THEN {"tombdrop"} ELSE {})
-                           \cup (IF \E x \in surv : x.d THEN {"tombkeep"} ELSE {})
-                           \cup (IF snaps # {} /\ \E x, y \in surv : x.k = y.k /\ x # y THEN {"snapkeep"} ELSE {})
-                           \cup (IF su.in1 # {} THEN {"merge"} ELSE {"push"})
-     /\ nextf' = nextf + 1 /\ Rec([op |-> "compact", a |-> level, b |-> b, c |-> e, w |-> 0])
+  /\ Overlapping(lv, level, Lo(b), Hi(e), b # NoKey, e # NoKey) # {}
+  /\ LET r == Rounds(lv, nextf, level, Lo(b), Hi(e), b # NoKey, e # NoKey, tags) IN
+     /\ lv' = r.L /\ nextf' = r.nf /\ tags' = r.tags
+     /\ disk' = disk \cup {f.n : f \in UNION {r.L[l] : l \in Levels}}
+  /\ Rec([op |-> "compact", a |-> level, b |-> b, c |-> e, w |-> 0])
+  /\ UNCHANGED <<seq, mem, imm, hasImm, snaps, hist, pins, big>>
 \* metadata lost, ldb_repair, open: the log becomes a table, every table goes to level 0 (C19)
 GRepair(variant) ==
   /\ AllowRepair /\ CanOp /\ snaps = {} /\ Files # {} /\ "repair" \notin tags
@@ -93,12 +140,12 @@ GRepair(variant) ==
      /\ lv' = [l \in Levels |-> IF l = 0 THEN Files \cup memf ELSE {}] /\ disk' = disk \cup {f.n : f \in memf}
   /\ mem' = {} /\ nextf' = nextf + 1 /\ tags' = tags \cup {"repair"}
   /\ RecW([op |-> "repair", a |-> variant, b |-> 0, c |-> 0, w |-> 0], 6)
-  /\ UNCHANGED <<seq, imm, hasImm, snaps, hist, pins>>
+  /\ UNCHANGED <<seq, imm, hasImm, snaps, hist, pins, big>>
 GSnap == /\ CanOp /\ snaps = {} /\ seq > 0 /\ snaps' = {seq} /\ RecW([op |-> "snap", a |-> 1, b |-> 0, c |-> 0, w |-> 0], 3)
-         /\ UNCHANGED <<seq, mem, imm, hasImm, lv, nextf, hist, pins, disk, tags>>
+         /\ UNCHANGED <<seq, mem, imm, hasImm, lv, nextf, hist, pins, disk, tags, big>>
 GRel == /\ CanOp /\ snaps # {} /\ snaps' = {} /\ Rec([op |-> "rel", a |-> 1, b |-> 0, c |-> 0, w |-> 0])
-        /\ UNCHANGED <<seq, mem, imm, hasImm, lv, nextf, hist, pins, disk, tags>>
-GNext == \/ \E k \in Keys : GPut(k) \/ GDel(k)
+        /\ UNCHANGED <<seq, mem, imm, hasImm, lv, nextf, hist, pins, disk, tags, big>>
+GNext == \/ \E k \in Keys : GPut(k) \/ GDel(k) \/ GPutBig(k)
          \/ GFlush \/ GReopen \/ GSnap \/ GRel \/ (\E v \in 0..3 : GRepair(v))
          \* ranges are taken from the file boundaries of the level (and just past them), where the selection logic has its cases
          \/ \E level \in 0..(NL - 2) :
@@ -108,7 +155,7 @@ GNext == \/ \E k \in Keys : GPut(k) \/ GDel(k)
                     GCompact(level, b, e)
 GSpec == GInit /\ [][GNext]_gvars
 \* no automatic compaction may become due: fewer than four level-0 files (scores stay below 1 for small data)
-GBound == Cardinality(lv[0]) <= 3
+GBound == Cardinality(lv[0]) <= 3 /\ \A l \in 1..(NL - 1) : Cardinality({f \in lv[l] : FileBig(f)}) <= 7
 \* side effect: write finished behaviours that reached something interesting (evaluated as a state constraint)
 Interesting == tags \ {"flush0", "push", "merge"} # {}
 Dump == IF Len(ops) = MaxOps /\ Interesting
@@ -116,4 +163,12 @@ Dump == IF Len(ops) = MaxOps /\ Interesting
                              <<[tags |-> tags, ops |-> ops]>>)
         ELSE TRUE
 GConstraint == GBound /\ Dump
+\* ---- targeted generation: breadth-first search for the SHORTEST behaviours that reach a rare situation ----
+\* (run with VIEW GView so that the operation history does not split states, and with -continue to collect several)
+CONSTANT Target
+GView == <<vars, tags, big>>
+GBoundT == GBound /\ Len(ops) <= MaxOps
+NotReached == (Target \subseteq tags) =>
+                (ndJsonSerialize(OutDir \o "/t" \o ToString(Len(ops)) \o "_" \o ToString(seq) \o "_" \o ToString(nextf) \o "_" \o ToString(Cardinality(Files)) \o ".ndjson",
+                                 <<[tags |-> tags, ops |-> ops]>>) /\ FALSE)
 =============================================================================
